@@ -18,6 +18,7 @@
 import Bcder.Props.C10
 import Bcder.Props.C16
 import Bcder.Props.C06
+import Bcder.Props.C01
 namespace Bcder.Props.C11b
 open Bcder Bcder.Spec Prog Bcder.Props.C02
 
@@ -131,6 +132,57 @@ def PVloc (m : M) (f : Nat) : Prop := ∀ (v : Bytes) (t : Tree) (n' n : Nat), n
   parseValue m f v = some (t, v.drop n') → parseValue m f (v.take n) = some (t, (v.take n).drop n')
 def PEloc (m : M) (f : Nat) : Prop := ∀ (v : Bytes) (ts : List Tree) (n' n : Nat), n' ≤ n → n' ≤ v.length →
   parseUntilEoc m f v = some (ts, v.drop n') → parseUntilEoc m f (v.take n) = some (ts, (v.take n).drop n')
+
+/-- the header of a value lies inside the octets of the value -/
+theorem header_le (m : M) (f : Nat) (v : Bytes) (t : Tree) (n' : Nat) (hn' : n' ≤ v.length)
+    (h : parseValue m (f + 1) v = some (t, v.drop n')) (id : Ident) (k : Nat) (hr : readIdent v = some (id, k)) :
+    ∃ len? kl, readLen m.isBer (v.drop k) = some (len?, kl) ∧ k + kl ≤ n' := by
+  simp only [parseValue] at h
+  obtain ⟨_, _, hk1, hk, _⟩ := C12.readIdent_bounds v id k hr
+  simp only [hr] at h
+  by_cases he : isEocIdent id = true
+  · simp [he] at h
+  · simp only [he, Bool.false_eq_true, if_false] at h
+    cases hl : readLen m.isBer (v.drop k) with
+    | none => simp [hl] at h
+    | some r2 =>
+      obtain ⟨len?, kl⟩ := r2
+      obtain ⟨hkl1, hkl⟩ := readLen_bound _ _ _ _ hl
+      simp only [List.length_drop] at hkl
+      simp only [hl] at h
+      refine ⟨len?, kl, rfl, ?_⟩
+      cases len? with
+      | some len =>
+        simp only at h
+        split at h
+        · simp at h
+        · rename_i hlen
+          have hrest : ∀ x, (some (x, (v.drop (k + kl)).drop len) : Option (Tree × Bytes)) = some (t, v.drop n') →
+              k + kl + len = n' := by
+            intro x hx
+            simp only [Option.some.injEq, Prod.mk.injEq, List.drop_drop] at hx
+            simp only [List.length_drop] at hlen
+            exact drop_inj v _ _ (by omega) hn' hx.2
+          split at h
+          · have := hrest _ h; omega
+          · split at h
+            · simp at h
+            · split at h
+              · have := hrest _ h; omega
+              · simp at h
+      | none =>
+        simp only at h
+        split at h
+        · simp at h
+        · split at h
+          · rename_i kids rest hp
+            simp only [Option.some.injEq, Prod.mk.injEq] at h
+            obtain ⟨j, hj, hrest⟩ := (suffix_lemma m f).2 _ _ _ hp
+            simp only [List.length_drop] at hj
+            rw [hrest, List.drop_drop] at h
+            have := drop_inj v _ _ (by omega) hn' h.2
+            omega
+          · simp at h
 
 theorem pv_step (m : M) (f : Nat) (hE : PEloc m f) : PVloc m (f + 1) := by
   intro v t n' n hn hn' h
@@ -255,5 +307,219 @@ theorem pv_step (m : M) (f : Nat) (hE : PEloc m f) : PVloc m (f + 1) := by
               simp only [Option.some.injEq, Prod.mk.injEq]
               refine ⟨h.1, ?_⟩
               rw [← hd2, List.drop_drop, hjn]
+
+
+theorem pe_step (m : M) (f : Nat) (hV : PVloc m f) (hE : PEloc m f) : PEloc m (f + 1) := by
+  intro v ts n' n hn hn' h
+  simp only [parseUntilEoc] at h ⊢
+  cases hr : readIdent v with
+  | none => simp [hr] at h
+  | some r =>
+    obtain ⟨id, k⟩ := r
+    obtain ⟨_, _, hk1, hk, _⟩ := C12.readIdent_bounds v id k hr
+    simp only [hr] at h
+    by_cases he : isEocIdent id = true
+    · simp only [he, if_true] at h
+      by_cases hc : id.constructed = true
+      · simp [hc] at h
+      · simp only [hc, Bool.false_eq_true, if_false] at h
+        cases hl : readLen m.isBer (v.drop k) with
+        | none => simp [hl] at h
+        | some r2 =>
+          obtain ⟨len?, kl⟩ := r2
+          obtain ⟨hkl1, hkl⟩ := readLen_bound _ _ _ _ hl
+          simp only [List.length_drop] at hkl
+          rw [hl] at h
+          have hz : len? = some 0 := by
+            cases len? with
+            | none => simp at h
+            | some x => cases x with
+              | zero => rfl
+              | succ y => simp at h
+          subst hz
+          simp only [Option.some.injEq, Prod.mk.injEq] at h
+          have hn'eq : k + kl = n' := drop_inj v _ _ (by omega) hn' h.2
+          have hri' : readIdent (v.take n) = some (id, k) := readIdent_take v id k n hr (by omega)
+          have hd1 : (v.take n).drop k = (v.drop k).take (n - k) := drop_take_comm v k n (by omega)
+          have hrl' : readLen m.isBer ((v.take n).drop k) = some (some 0, kl) := by
+            rw [hd1]; exact readLen_take _ _ _ _ _ hl (by omega)
+          simp only [hri', he, if_true, hc, Bool.false_eq_true, if_false, hrl', Option.some.injEq, Prod.mk.injEq]
+          exact ⟨h.1, by rw [hn'eq]⟩
+    · simp only [he, Bool.false_eq_true, if_false] at h
+      cases hp : parseValue m f v with
+      | none => simp [hp] at h
+      | some r3 =>
+        obtain ⟨t, rest1⟩ := r3
+        simp only [hp] at h
+        cases hq : parseUntilEoc m f rest1 with
+        | none => simp [hq] at h
+        | some r4 =>
+          obtain ⟨ts', rest'⟩ := r4
+          simp only [hq, Option.some.injEq, Prod.mk.injEq] at h
+          obtain ⟨n1, hn1, hrest1⟩ := (suffix_lemma m f).1 _ _ _ hp
+          obtain ⟨j, hj, hrest'0⟩ := (suffix_lemma m f).2 _ _ _ hq
+          have hrest' : rest' = v.drop (n1 + j) := by rw [hrest'0, hrest1, List.drop_drop]
+          rw [hrest1] at hj
+          simp only [List.length_drop] at hj
+          have hsum : n1 + j = n' := by
+            have h2 := h.2
+            rw [hrest'] at h2
+            exact drop_inj v _ _ (by omega) hn' h2
+          have hri' : readIdent (v.take n) = some (id, k) := by
+            -- the identifier lies inside the first value
+            have hkn1 : k ≤ n1 := by
+              cases f with
+              | zero => simp [parseValue] at hp
+              | succ f' =>
+                obtain ⟨_, kl, _, hle⟩ := header_le m f' v t n1 hn1 (by rw [hp, hrest1]) id k hr
+                omega
+            exact readIdent_take v id k n hr (by omega)
+          simp only [hri', he, Bool.false_eq_true, if_false]
+          have h1 := hV v t n1 n (by omega) hn1 (by rw [hp, hrest1])
+          rw [h1]
+          simp only
+          have hd : (v.take n).drop n1 = (v.drop n1).take (n - n1) := drop_take_comm v n1 n (by omega)
+          have h2 := hE (v.drop n1) ts' j (n - n1) (by omega) (by simp only [List.length_drop]; omega)
+            (by rw [← hrest1, hq, hrest'0])
+          rw [hd, h2]
+          simp only [Option.some.injEq, Prod.mk.injEq]
+          refine ⟨h.1, ?_⟩
+          rw [← hd, List.drop_drop, hsum]
+
+theorem parse_prefix (m : M) : ∀ f, PVloc m f ∧ PEloc m f := by
+  intro f
+  induction f with
+  | zero =>
+    exact ⟨fun v t n' n _ _ h => by simp [parseValue] at h, fun v ts n' n _ _ h => by simp [parseUntilEoc] at h⟩
+  | succ f ih => exact ⟨pv_step m f ih.2, pe_step m f ih.1 ih.2⟩
+
+
+/-! ### `capture_one` captures exactly one complete value -/
+
+/-- **C11: `capture_one` returns exactly the octets of the next complete value.**  On any source
+    `St d l` (no open capture): if `capture_one` succeeds, the grammar accepts a value `t` at the
+    current position occupying the first `n` octets of the view, the captured octets are exactly those
+    `n` octets, the `Constructed` is unchanged and decoding continues immediately behind them. -/
+theorem capture_one_value (c : Cons) (N : Nat) (d : Bytes) (l : Option Nat) (bytes : Bytes) (c' : Cons) (g' : G0)
+    (h : runG0 (captureOne c N) (St d l) = .ok ((bytes, c'), g')) :
+    ∃ f t n, n ≤ (St d l).view.length ∧
+      parseValue (toM c.mode) f (St d l).view = some (t, (St d l).view.drop n) ∧
+      bytes = (St d l).view.take n ∧ bytes = d.take n ∧ g' = (St d l).adv n ∧ c' = c := by
+  unfold captureOne at h
+  rw [C16.capture_run0 c _ (fun c => by
+    have := nocap_mandatory _ (nocap_skipOne c N)
+    nocap) d l] at h
+  simp only [runG0_bind, C09.mandatory_run, C10.run_skipOne] at h
+  cases hs : runG0 (skipOpt c acceptAll () N) (St d l) with
+  | error e => rw [hs] at h; cases h
+  | ok x =>
+    obtain ⟨⟨r, c1, u⟩, g1⟩ := x
+    rw [hs] at h
+    cases r with
+    | none => simp at h
+    | some uu =>
+      obtain ⟨f, t, rest, hp, _, hc1, hg1, _, _, _⟩ := C10.skip_value_inv c acceptAll () (St d l) rfl N c1 u g1 hs
+      obtain ⟨n, hn, hrest⟩ := (suffix_lemma (toM c.mode) f).1 _ _ _ hp
+      have hlen : (St d l).view.length - rest.length = n := by rw [hrest, List.length_drop]; omega
+      rw [hlen] at hg1
+      subst hg1; subst hc1
+      have hvd : (St d l).view.length ≤ d.length := G0.view_length_le _
+      have hk : d.length - ((St d l).adv n).data.length = n := by
+        simp only [G0.adv, List.length_drop]; omega
+      simp only [runG0_pure, hk] at h
+      have htake : (St d l).view.take n = d.take n := by
+        cases l with
+        | none => rfl
+        | some lim =>
+          simp only [G0.view, List.take_take]
+          have : n ≤ lim := by
+            have := view_le_limit (St d (some lim)) lim rfl
+            omega
+          rw [Nat.min_eq_left this]
+      refine ⟨f, t, n, hn, by rw [hp, hrest], ?_, ?_, ?_, ?_⟩
+      all_goals
+        cases l with
+        | none =>
+          simp only [Except.ok.injEq, Prod.mk.injEq] at h
+          first
+            | (rw [← h.1.1]; try rw [htake])
+            | (rw [← h.2]; rfl)
+            | (rw [← h.1.2])
+        | some lim =>
+          have hnl : n ≤ lim := by
+            have := view_le_limit (St d (some lim)) lim rfl
+            omega
+          have : ¬ lim < n := by omega
+          simp only [this, if_false, Except.ok.injEq, Prod.mk.injEq] at h
+          first
+            | (rw [← h.1.1]; try rw [htake])
+            | (rw [← h.2]; rfl)
+            | (rw [← h.1.2])
+
+
+/-- **C11: decoding the captured data later yields the same value as decoding it in place.**  The
+    octets `capture_one` returned, parsed on their own, are exactly the value that stood at the
+    capture position, with nothing left over. -/
+theorem captured_value_decodes (c : Cons) (N : Nat) (d : Bytes) (l : Option Nat) (bytes : Bytes) (c' : Cons) (g' : G0)
+    (h : runG0 (captureOne c N) (St d l) = .ok ((bytes, c'), g')) :
+    ∃ f t rest, parseValue (toM c.mode) f (St d l).view = some (t, rest) ∧
+      parseValue (toM c.mode) f bytes = some (t, []) := by
+  obtain ⟨f, t, n, hn, hp, hb, _, _, _⟩ := capture_one_value c N d l bytes c' g' h
+  refine ⟨f, t, _, hp, ?_⟩
+  have := (parse_prefix (toM c.mode) f).1 (St d l).view t n n (Nat.le_refl _) hn hp
+  rw [hb, this]
+  simp [List.drop_take]
+
+/-- … and, through C02, so does the generic reader: reading the captured octets as a top-level
+    source returns exactly `[t]` and consumes everything -/
+theorem captured_value_read_later (c : Cons) (N : Nat) (d : Bytes) (l : Option Nat) (bytes : Bytes) (c' : Cons)
+    (g' : G0) (h : runG0 (captureOne c N) (St d l) = .ok ((bytes, c'), g')) :
+    ∃ f t, WellFormed c.mode bytes [t] ∧
+      runG0 (decodeAll c.mode (f + 2)) (St bytes none) = .ok ([t], St [] none) := by
+  obtain ⟨f, t, rest, _, hp⟩ := captured_value_decodes c N d l bytes c' g' h
+  have hp1 : parseValue (toM c.mode) (f + 1) bytes = some (t, []) := (C10.parse_mono1 _ f).1 _ _ hp
+  have hne : bytes.isEmpty = false := by
+    cases bytes with
+    | nil => cases f <;> simp [parseValue, readIdent] at hp
+    | cons b r => rfl
+  have hall : parseAll (toM c.mode) (f + 2) bytes = some [t] := by
+    simp only [parseAll, hne, Bool.false_eq_true, if_false, hp1]
+    simp [parseAll]
+  refine ⟨f, t, ⟨f + 2, hall⟩, ?_⟩
+  have hr := decode_run c.mode (f + 2) bytes
+  rw [hall] at hr
+  simp only [Option.map] at hr
+  exact (rel0_some _ _).mp hr
+
+/-- **C11: captured content read later = read in place.**  Reading octets `cap` later as a source of
+    their own (`Captured::decode`) and reading the same octets in place as the content of a
+    definite-length value (whatever follows them) deliver the same trees — both equal the grammar. -/
+theorem decode_later_same (m : Mode) (f : Nat) (cap rest : Bytes) (ts : List Tree) (g' : G0)
+    (h : runG0 (readAll f ⟨.definite, m⟩) (St (cap ++ rest) (some cap.length)) = .ok ((ts, ⟨.definite, m⟩), g')) :
+    runG0 (decodeAll m f) (St cap none) = .ok (ts, St [] none) := by
+  have hd := definite_parent m f (cap ++ rest) cap.length
+  rw [h] at hd
+  unfold specD at hd
+  simp only [List.length_append, Nat.le_add_right, if_true, List.take_left'] at hd
+  cases hp : parseAll (toM m) f cap with
+  | none =>
+    rw [hp] at hd
+    simp [Rel0] at hd
+  | some ts' =>
+    rw [hp] at hd
+    simp only [Option.map, Rel0, Prod.mk.injEq] at hd
+    have hr := decode_run m f cap
+    rw [hp] at hr
+    simp only [Option.map] at hr
+    rw [(rel0_some _ _).mp hr, hd.1.1]
+
+/-- **C11: writing captured data back out reproduces it unchanged** (in its own mode, and in BER) -/
+theorem reencode_unchanged (own : Mode) (bytes : Bytes) :
+    (Enc.captured bytes own).write own = .ok bytes ∧ (Enc.captured bytes own).write .ber = .ok bytes ∧
+    (Enc.captured bytes own).encodedLen own = .ok bytes.length := by
+  refine ⟨?_, ?_, ?_⟩
+  · rw [C06.write_captured]; simp
+  · rw [C06.write_captured]; simp
+  · cases own <;> rfl
 
 end Bcder.Props.C11b
